@@ -246,7 +246,6 @@ def _judge(plan: Plan, observed: List[Tuple[str, Any]], new_entries: Dict[str, l
     def fail(cls_name, text):
         failed.setdefault(cls_name, []).append(text)
 
-    objs = [o for _r, o in observed]
     if plan.target == "Dimension":
         for role, o in observed:
             if not isinstance(o, m.Dimension) or tuple(getattr(o, "exponents", ())) != plan.dim_key:
